@@ -53,6 +53,7 @@ type Raft struct {
 	quorumWait       time.Duration
 	promoteThreshold time.Duration
 	shutdownOnRemove bool
+	removedAtStart   uint64 // index of the latest config, if it did not list this node when it was started
 	logger           Logger
 	alerts           Alerts
 	bandwidth        int64
@@ -126,6 +127,12 @@ func New(opt Options, fsm FSM, storageDir string) (*Raft, error) {
 		newEntryCh:       make(chan *newEntry),
 		close:            make(chan struct{}),
 		closed:           make(chan struct{}),
+	}
+
+	if _, ok := store.configs.Latest.Nodes[store.nid]; !ok && store.configs.Latest.Index > 0 {
+		// started although our own log says we were removed: we are being
+		// added again, and that old removal is not news when it commits
+		r.removedAtStart = store.configs.Latest.Index
 	}
 
 	r.resolver = &resolver{
